@@ -163,6 +163,22 @@ def rename_prog(prog, m):
     return [st(s) for s in prog]
 
 
+def local_names(prog):
+    """parameters and variables defined inside function bodies (the back-ends prefix those with the function number)"""
+    out = set()
+    for s in prog:
+        if s[0] == "func":
+            out.update(n for n, _ in s[2])
+            acc = []
+            gen_prog._defined_names(s[4], acc)
+            out.update(acc)
+    return out
+
+
+# a function-local name is prefixed `f<k>_`; it can only meet the compiler's own prefixed names of that function
+LOCAL_COLLIDES = r"_h\d+|_ma\d+"
+
+
 def run(res, b, tier, seed):
     rng = random.Random(seed * 6151 + 10)
     pr = common.prove("C10")
@@ -179,17 +195,19 @@ def run(res, b, tier, seed):
         g = gen_prog.generate(rng, cfg)
         if g is None:
             continue
-        prog, src, out, status, _ = g
+        prog, src, out, status, ks = g
+        kf = dict(switch_break=bool(ks.get("_switch_break")), switch_tag_call=bool(ks.get("_switch_tag_call")), range_call=bool(ks.get("_range_call")))
         ids = identifiers(prog)
         if not ids:
             continue
+        locs = local_names(prog)
         # (c) a scope-consistent renaming that is not injective: locals / parameters of different functions get the
         #     same names, globals defined after a function reuse its local names (all legal, meaning unchanged)
         rp0 = gen_prog.reuse_names(rng, prog)
         rsrc0 = gen_prog.pp_program(rp0)
         if rsrc0 != src:
             cases.append(pipeline.Case("p%d_reuse" % pi, {"main.tsh": rsrc0.encode()},
-                                       meta=dict(expected_out=out, expected_status=status, src=rsrc0, original=src, renaming="reuse of names across scopes", reserved=[])))
+                                       meta=dict(expected_out=out, expected_status=status, src=rsrc0, original=src, renaming="reuse of names across scopes", reserved=[], **kf)))
         for ri in range(nren):
             reserved = ri % 2 == 1
             pool = [n for n in (RESERVED_POOL if reserved else NEUTRAL_POOL) if n not in KEYWORDS]
@@ -214,14 +232,19 @@ def run(res, b, tier, seed):
             rp = rename_prog(prog, m)
             rsrc = gen_prog.pp_program(rp)
             cases.append(pipeline.Case("p%d_%d" % (pi, ri), {"main.tsh": rsrc.encode()},
-                                       meta=dict(expected_out=out, expected_status=status, src=rsrc, original=src, renaming=m,
-                                                 reserved=sorted(v for v in m.values() if is_reserved(v)))))
+                                       meta=dict(expected_out=out, expected_status=status, src=rsrc, original=src, renaming=m, **kf,
+                                                 reserved=sorted(v for v in m.values() if is_reserved(v)),
+                                                 reserved_known=sorted(v for k_, v in m.items() if is_reserved(v) and (k_ not in locs or re.fullmatch(LOCAL_COLLIDES, v))))))
     # directed programs (written from the property text): the same identifier spelled in several scopes at once
     import semprop
     for name, j in semprop.load_corpus("C02"):
         cases.append(pipeline.Case("corpus-" + name, {"main.tsh": j["src"].encode()},
                                    meta=dict(expected_out=j["stdout"], expected_status=j["status"], src=j["src"], original=j["src"],
                                              renaming="directed program: one spelling used in several scopes", reserved=[])))
+    for name, j in semprop.load_corpus("C10"):
+        cases.append(pipeline.Case("corpus-" + name, {"main.tsh": j["src"].encode()},
+                                   meta=dict(expected_out=j["stdout"], expected_status=j["status"], src=j["src"], original=j["src"],
+                                             renaming="directed program: " + j.get("note", ""), reserved=[])))
     dis, fails = semcheck.check_cases(b, cases)
     res.coverage.update(dict(
         evaluations=len(cases),
@@ -239,7 +262,15 @@ def run(res, b, tier, seed):
     for c, kind, detail in fails:
         if kind in ("rejected", "emit-failed"):
             continue                                   # "or makes transpilation fail with an error"
-        if c.meta["reserved"] and res.known_finding("reserved-identifiers-not-rejected", kind):
+        # the known finding: a GLOBAL variable or a function spelled like a name the back-end or the shell owns, or a local
+        # spelled like a helper / temporary of its own function; a local spelled like an unprefixed compiler name does not collide
+        if c.meta.get("reserved_known") and res.known_finding("reserved-identifiers-not-rejected", kind):
+            continue
+        if kind == "behaviour" and c.meta.get("switch_break") and res.known_finding("break-in-switch", kind):
+            continue
+        if kind == "behaviour" and c.meta.get("switch_tag_call") and res.known_finding("switch-tag-evaluated-per-case", kind):
+            continue
+        if kind == "behaviour" and c.meta.get("range_call") and res.known_finding("range-expression-re-evaluated", kind):
             continue
         real.append((c, kind, detail))
     for c, kind, detail in real[:3]:
